@@ -54,23 +54,22 @@ class Ref:
         self.funcs = {}
         self.ghost = 0
         self.steps = 0
+        self.readlog = []  # ('T' | 'S', scope depth, value) for every value delivered by an input read
 
     # ---- input (Input.md)
-    def read_scope(self, scope):
+    def read_scope(self, scope, kind="T"):
         vals = scope[0]
+        v = 0
         if vals:
             v = vals[scope[1] % len(vals)]
             scope[1] += 1
-            return v
-        return 0
+        self.readlog.append((kind, len(self.scopes), v))
+        return v
 
     def implicit(self):
-        sc = self.scopes[-1]
-        if sc[0]:
-            return self.read_scope(sc)
         if len(self.scopes) == 1:
-            return 0  # no inputs, no STDIN: every read is 0
-        return 0
+            return self.read_scope(self.scopes[0], "T")  # no inputs, no STDIN: every read is 0
+        return self.read_scope(self.scopes[-1], "S")
 
     def pop(self, stack):
         return stack.pop() if stack else self.implicit()
